@@ -86,6 +86,11 @@ def run(ctx):
             tasks.append(dict(simname=sim, aw=aw, dw=dw, pre=(), seed=ctx.seed,
                               max_steps=300 if ctx.tier == 'quick' else 2000,
                               init={0: (1 << dw) - 1}))
+        # addresses that collide in a 256-bucket table, rewritten repeatedly (hash-map back ends)
+        tasks.append(dict(simname=sim, aw=10, dw=5, pre=(), seed=ctx.seed, max_steps=400,
+                          addr_pool=[44, 300, 556, 812, 45, 301, 0, 256, 512, 1023, 767]))
+        tasks.append(dict(simname=sim, aw=9, dw=65, pre=(), seed=ctx.seed + 3, max_steps=300,
+                          addr_pool=[7, 263, 8, 264, 511, 255]))
     res = passcheck.pmap(_walk, tasks)
     steps = 0
     exh = 0
